@@ -127,7 +127,7 @@ def run(ck):
     ck.prove(["AsModel.Theorems.C12"])
     ck.build_harness("inproc")
     res = t2.run(ck)
-    t2_mm = t2.record(ck, res, ("body", "validity"), "native destructuring patterns")
+    t2_mm = t2.record(ck, res, ("body",), "native destructuring patterns")
     cases = t3.run_corpus(ck, "c12", 0, per_bin=10, positions=make_cases)
     dist = {}
     found = False
@@ -151,4 +151,6 @@ def run(ck):
     if t2_mm and not found:
         ck.report("corr:T2-body", "the model of the code generator no longer matches the real expansion (%d inputs differ)" % len(t2_mm),
                   dict(broken="correspondence T2 (expansion tokens)", theorems=["C12_struct_pat_faithful"], first=t2_mm[:3]), no_input=True)
+    import parsetie
+    parsetie.light_tie(ck, "C12: the compiled programs' expectations read patterns with the model parser")
     ck.assumptions += ["rustc's destructuring rules (E0026, E0027, E0023, E0308) are modelled by the `none` cases of exec / frontier and validated against rustc on the matrix"]
